@@ -188,40 +188,48 @@ def SymTab.insert (t : SymTab) (k : SymKey) (s : Symbol) : Except CDiag SymTab :
   | some _ => .error (.redeclaredSymbol k.2)
   | none => .ok ((k, s) :: t)
 
-def createGlobals : List X.Decl → Nat → SymTab → Except CDiag SymTab
+/-! The C++ constructor of `Symbol` leaves `stackOffset` uninitialised; the `J` versions take the
+    value it happens to hold as a parameter `j` (C11: it is never read before
+    `FormalLocations`/`LocalDeclLocations` overwrite it, `Lemmas/XcmpSymJunk.lean`). -/
+
+def createGlobalsJ (j : Int) : List X.Decl → Nat → SymTab → Except CDiag SymTab
   | [], _, t => .ok t
   | d :: ds, i, t => do
     let t' ← t.insert ("", d.name)
-      { type := declSymType d, node := .gdecl i, isValDecl := declIsVal d, scope := "", name := d.name }
-    createGlobals ds (i + 1) t'
+      { type := declSymType d, node := .gdecl i, isValDecl := declIsVal d, scope := "", name := d.name, stackOffset := j }
+    createGlobalsJ j ds (i + 1) t'
 
-def createFormals (p : Nat) (scope : String) : List X.Formal → Nat → SymTab → Except CDiag SymTab
+def createFormalsJ (j : Int) (p : Nat) (scope : String) : List X.Formal → Nat → SymTab → Except CDiag SymTab
   | [], _, t => .ok t
   | f :: fs, i, t => do
     let t' ← t.insert (scope, f.name)
-      { type := formalSymType f, node := .formal p i, isValDecl := false, scope := scope, name := f.name }
-    createFormals p scope fs (i + 1) t'
+      { type := formalSymType f, node := .formal p i, isValDecl := false, scope := scope, name := f.name, stackOffset := j }
+    createFormalsJ j p scope fs (i + 1) t'
 
-def createLocals (p : Nat) (scope : String) : List X.Decl → Nat → SymTab → Except CDiag SymTab
+def createLocalsJ (j : Int) (p : Nat) (scope : String) : List X.Decl → Nat → SymTab → Except CDiag SymTab
   | [], _, t => .ok t
   | d :: ds, i, t => do
     let t' ← t.insert (scope, d.name)
-      { type := declSymType d, node := .ldecl p i, isValDecl := declIsVal d, scope := scope, name := d.name }
-    createLocals p scope ds (i + 1) t'
+      { type := declSymType d, node := .ldecl p i, isValDecl := declIsVal d, scope := scope, name := d.name, stackOffset := j }
+    createLocalsJ j p scope ds (i + 1) t'
 
-def createProcs : List X.Proc → Nat → SymTab → Except CDiag SymTab
+def createProcsJ (j : Int) : List X.Proc → Nat → SymTab → Except CDiag SymTab
   | [], _, t => .ok t
   | p :: ps, i, t => do
     -- visitPre(Proc) runs before enterProc: the procedure's own symbol lives in the global scope
     let t1 ← t.insert ("", p.name)
-      { type := if p.isFunc then .func else .proc, node := .proc i, isValDecl := false, scope := "", name := p.name }
-    let t2 ← createFormals i p.name p.formals 0 t1
-    let t3 ← createLocals i p.name p.locals 0 t2
-    createProcs ps (i + 1) t3
+      { type := if p.isFunc then .func else .proc, node := .proc i, isValDecl := false, scope := "", name := p.name,
+        stackOffset := j }
+    let t2 ← createFormalsJ j i p.name p.formals 0 t1
+    let t3 ← createLocalsJ j i p.name p.locals 0 t2
+    createProcsJ j ps (i + 1) t3
+
+/-- `tree->accept(&createSymbols)` with uninitialised `stackOffset`s holding `j`. -/
+def createSymbolsJ (j : Int) (P : X.Program) : Except CDiag SymTab := do
+  let t ← createGlobalsJ j P.globals 0 []
+  createProcsJ j P.procs 0 t
 
 /-- `tree->accept(&createSymbols)`. -/
-def createSymbols (P : X.Program) : Except CDiag SymTab := do
-  let t ← createGlobals P.globals 0 []
-  createProcs P.procs 0 t
+def createSymbols (P : X.Program) : Except CDiag SymTab := createSymbolsJ 0 P
 
 end Hex.Xcmp
